@@ -1589,8 +1589,14 @@ impl DnsOutPacket {
 
         // Write each label
         for (i, label) in labels.iter().enumerate() {
-            // Build the remaining name for compression (with dots as separators)
-            let remaining: String = labels[i..].join(".");
+            // Build the remaining name for compression (with dots as separators).
+            // Dots and backslashes inside a label are escaped, so that a label
+            // "a.b" and two labels "a", "b" do not share a key.
+            let remaining: String = labels[i..]
+                .iter()
+                .map(|l| l.replace('\\', "\\\\").replace('.', "\\."))
+                .collect::<Vec<_>>()
+                .join(".");
 
             // Check if we can use compression for the remaining part
             const POINTER_MASK: u16 = 0xC000;
